@@ -498,6 +498,41 @@ def replay_underflow_mixed_batch(args):
     return True, "held"
 
 
+def ob_bdsk_rho_zero_in_batch():
+    """birth-death skyline, all tips at the present, a batch in which SOME samples have no sampling at the present (rho = 0: their tips are
+    psi-samples) and others have rho > 0: every sample equals its single-sample evaluation"""
+    def body():
+        import torchtree.evolution.bdsk as bd
+        t = lambda v: torch.tensor(v, dtype=torch.float64)
+        nh = t([0.0, 0.0, 0.0, 1.0, 2.5])
+        n = 0
+        for rhos in ([0.4, 0.0], [0.0, 0.4], [0.0, 0.3, 0.0], [0.5, 0.2]):
+            S = len(rhos)
+            lam, mu, psi, org = t([[2.0]] * S), t([[1.0]] * S), t([[0.5]] * S), t([[5.0]] * S)
+            try:
+                got = bd.PiecewiseConstantBirthDeath(lam, mu, psi, rho=t([[r] for r in rhos]), origin=org, survival=True).log_prob(nh.expand(S, -1)).reshape(-1)
+            except Exception:
+                continue
+            for k, r in enumerate(rhos):
+                want = float(bd.PiecewiseConstantBirthDeath(t([2.0]), t([1.0]), t([0.5]), rho=t([r]), origin=t([5.0]), survival=True).log_prob(nh).reshape(-1)[0])
+                n += 1
+                if abs(float(got[k]) - want) > 1e-9 * max(1.0, abs(want)) or float(got[k]) != float(got[k]):
+                    raise Refuted("BDSK batch with rho at the present %s: sample %d returns %r in the batch and %r evaluated alone" % (rhos, k, float(got[k]), want),
+                                  witness={"rhos": rhos, "sample": k}, replay={"kind": "custom", "contract": "C10", "func": "replay_bdsk_rho_zero_in_batch", "args": {}}, confirmed=True)
+        if n == 0:
+            raise Undecided("no batch could be evaluated")
+        return {"backend": "concrete", "cases": n, "statement": "%d samples of batches mixing rho = 0 and rho > 0 equal their single-sample evaluation" % n}
+    return Ob("C10.bdsk.rho_zero_in_batch", "B", body, clause="result[s] is the result of the s-th slice when only some samples have sampling at the present", funcs=FUNCS)
+
+
+def replay_bdsk_rho_zero_in_batch(args):
+    try:
+        ob_bdsk_rho_zero_in_batch().fn()
+    except Refuted as e:
+        return False, e.detail
+    return True, "held"
+
+
 def replay_real_model_sample_shapes(args):
     try:
         ob_real_model_sample_shapes().fn()
@@ -590,6 +625,7 @@ def obligations(tier, seed):
                                    clause="joint adds components of the same sample only", funcs=FUNCS, seed=seed))
     obs.append(ob_sample_shape_helpers())
     obs.append(ob_real_model_sample_shapes())
+    obs.append(ob_bdsk_rho_zero_in_batch())
     for ts_ in (False, True):
         obs.append(ob_underflow_mixed_batch(ts_))
     obs.append(ob_hierarchical_distribution())
